@@ -294,6 +294,6 @@ def _opt_decoupled(n, m, q, d=2, tier="quick"):
 
 
 _opt_decoupled(2, 2, 1)
-_opt_decoupled(2, 3, 2, tier="thorough")
+_opt_decoupled(2, 3, 2)
 _opt_decoupled(2, 3, 1)
 _opt_decoupled(3, 2, 2)
